@@ -20,7 +20,10 @@ tie "enqueue order = call order" is the stage system `tstep` (Model/PortIO.lean,
 ports carry a function transform (`tr >= 2` in harness/props/c14.py: MUL, ADD, lazy IF with unequal branches, IF that
 fails for one value; null / failing / both-branch values in same-instant bursts from API, direct and sequence
 submitters): submissions are logged at the ENTRY of the public call and the driver must receive the transformed values
-in that order (corpus witnesses W2, W2b and the `[5, None, 7]` case).
+in that order (corpus witnesses W2, W2b and the `[5, None, 7]` case). The `transform_write` attribute itself may be set,
+changed and cleared between and during the calls (`setTr`): the stage reads it when a call gets the submit lock; the
+driver `Driver/C14.lean` runs the stage system on the schedules observed on the real code ("dyn" cases of the harness:
+attribute changes interleaved with submissions whose transform evaluation is suspended; corpus witness W3).
 -/
 namespace QtVerif.PortIO.C14
 open QtVerif.PortIO
@@ -147,21 +150,23 @@ theorem system_calls_exclusive (cfgs : List Cfg) (σ : Sys) (h : SysReachable cf
   have hr := ((sys_reachable_port h).2 p c s hp).2
   exact ⟨hr, fun hg => reads_exclusive c hg s hr, fun hf => writes_exclusive c hf s hr⟩
 
-/-- **Call order is queue order** (repaired code): in every reachable state of the stage system the calls made are
-the calls that left the stage, in the same order, followed by those still in the stage; the values queued so far are
-exactly the values of the calls that left with an evaluated transform, in call order; and the port component is a
+/-- **Call order is queue order** (repaired code), for every history of changes of the `transform_write` attribute
+(`setTr` between and during the calls) and every transform table `xf`: in every reachable state of the stage system the
+calls made are the calls that left the stage, in the same order, followed by those still in the stage; the values
+queued so far are exactly the values of the calls that left with an evaluated transform — each the transform the call
+read when it got the submit lock, applied to the value it submitted —, in call order; and the port component is a
 reachable port state (so every theorem above applies to it, with `submitted` in call order). -/
-theorem call_order_is_queue_order (c : Cfg) (t : TState) (h : TReachable true c t) :
-    t.entered = t.passed.map (·.1) ++ t.stage ∧
-    t.port.submitted.map (·.val) = (t.passed.filter (·.2)).map (·.1.val) ∧
+theorem call_order_is_queue_order (xf : Nat → Int → Int) (c : Cfg) (t : TState) (h : TReachable true xf c t) :
+    t.entered = t.passed.map (·.call) ++ t.stage ∧
+    t.port.submitted.map (·.val) = (t.passed.filter (·.ok)).map (·.queuedVal xf) ∧
     Reachable c t.port :=
   let i := treachable_inv h
   ⟨i.calls, i.queued, i.reach⟩
 
 /-- The code before fixes/C14-submit-order-lock.diff (no FIFO hand-over: the caller whose transform evaluation finishes
 first is queued first) breaks the order: calls 1 then 2, the second one is queued — and written — first. -/
-theorem unrepaired_call_order_broken (cap : Nat) :
-    ∃ t, TReachable false { cap := cap } t ∧ t.entered.map (·.val) = [1, 2] ∧
+theorem unrepaired_call_order_broken (xf : Nat → Int → Int) (cap : Nat) :
+    ∃ t, TReachable false xf { cap := cap } t ∧ t.entered.map (·.val) = [1, 2] ∧
       t.port.started.map (·.val) = [2] ∧ t.port.queue.map (·.val) = [1] := by
   refine ⟨_, texec_reachable [.enter 1, .enter 2, .jump 1, .port .writerTake, .jump 0] TReachable.init rfl, ?_⟩
   cases cap <;> exact ⟨rfl, rfl, rfl⟩
@@ -209,12 +214,32 @@ example : ∃ s s', exec { cap := 1 } State.init [.submit 1] = some s ∧ step {
 example : ∃ σ, SysReachable [{ cap := 1 }, { cap := 4 }] σ ∧ (σ[1]?).map (fun x => x.2.queue.length) = some 1 := by
   refine ⟨_, SysReachable.step 1 (.submit 5) (SysReachable.step 0 .readBegin SysReachable.init rfl) rfl, rfl⟩
 
+/-- A transform table for the examples: transform 2 multiplies by 10, every other one adds 1000. -/
+def xfDemo (k : Nat) (v : Int) : Int := if k = 2 then v * 10 else v + 1000
+
 /-- The stage with FIFO hand-over: three calls, the middle one's transform fails, a `jump` is not enabled. -/
-example : (texec true { cap := 4 } {} [.enter 5, .enter 105, .enter 7, .pass true, .pass false, .pass true,
-      .port .writerTake]).map (fun t => (t.port.submitted.map (·.val), t.port.started.map (·.val), t.stage.length))
+example : (texec true xfDemo { cap := 4 } {} [.enter 5, .enter 105, .enter 7, .pass true, .acquire, .pass false,
+      .acquire, .pass true, .port .writerTake]).map
+        (fun t => (t.port.submitted.map (·.val), t.port.started.map (·.val), t.stage.length))
     = some ([5, 7], [5], 0) := by rfl
 
-example : texec true { cap := 4 } {} [.enter 5, .enter 7, .jump 1] = none := by rfl
+example : texec true xfDemo { cap := 4 } {} [.enter 5, .enter 7, .jump 1] = none := by rfl
+
+/-- The transform is cleared while the first call evaluates it and a second call is made (seeded change C14-r4-1: the
+second call must still queue behind the first): 5 is queued as 50, then 7 as it is; the second call cannot pass, nor
+take the lock, before the first has left. -/
+example : (texec true xfDemo { cap := 4 } {} [.setTr 2, .enter 5, .setTr 0, .enter 7, .pass true, .acquire,
+      .pass true]).map (fun t => (t.port.submitted.map (·.val), t.passed.map (·.tr))) = some ([50, 7], [2, 0]) := by
+  rfl
+
+example : texec true xfDemo { cap := 4 } {} [.setTr 2, .enter 5, .setTr 0, .enter 7, .acquire] = none := by rfl
+
+/-- The attribute changes while a call waits for the lock: the waiting call evaluates the transform it finds when it
+gets the lock (3), not the one set when it was made (2); a call on a free lock reads it at once. -/
+example : (texec true xfDemo { cap := 4 } {} [.setTr 2, .enter 5, .enter 6, .setTr 3, .pass true, .setTr 0, .setTr 3,
+      .acquire, .setTr 2, .pass true, .enter 8, .setTr 0, .pass true]).map
+        (fun t => (t.port.submitted.map (·.val), t.passed.map (·.tr), t.entered.map (·.tr)))
+    = some ([50, 1006, 80], [2, 3, 2], [2, 2, 2]) := by rfl
 
 /-- Two ports with different capacities. -/
 example : SysReachable [{ cap := 1 }, { cap := 4 }]
